@@ -87,6 +87,8 @@ NoStk == [st |-> "none", own |-> 0, lo |-> 0, hi |-> 0, kind |-> 0, idx |-> 0]
 NoTg == [par |-> -1, d |-> 0, ran |-> 0, reaped |-> 0, endv |-> 0, ended |-> FALSE,
          flags |-> 0, hs |-> "none", cell |-> 0, creq |-> FALSE]
 
+\* model-level calibration mutants (design configurations override this definition; "none" everywhere else)
+MUT == "none"
 \* thread t is the one whose code worker w is executing (not inside a callback)
 Runs(w, t) == cur[w] = t /\ t # 0 /\ cb[w].k = "none" /\ got[w] = 0
 At(w, t, k) == Runs(w, t) /\ th[t].pc.k = k
@@ -1016,7 +1018,7 @@ OnLd(w, o, s) ==
   /\ UNCHANGED <<cur, got, cb, runq, ledger, tg, bad, sv>>
 OnCas(w, o, ok) ==
   /\ \E t \in D : At(w, t, "on1") /\ th[t].pc.x = o /\ th[t].pc.y = 0
-        /\ ok = Flag(ob.on[o] = 0)
+        /\ ok = Flag(ob.on[o] = 0 \/ (MUT = "once_completed_wins" /\ ob.on[o] = 2))   \* (calibration mutant: a CAS that finds "completed" counts as won)
         /\ th' = SetPc(t, IF ok = 1 THEN P("on2", o, 0, 0) ELSE P("onw", o, 0, 0))
   /\ ob' = IF ok = 1 THEN ObSet("on", o, 1) ELSE ob
   /\ UNCHANGED <<cur, got, cb, runq, ledger, tg, bad, mx, sq, gh>>
@@ -1072,7 +1074,9 @@ UFeMarkCall(w, tag, f, s, m, c) ==
 \* publish the status, then signal the condition of that status, then unlock
 FeMark(w, f, s) ==
   /\ \E t \in D : At(w, t, "fm0") /\ th[t].pc.x = f /\ th[t].pc.y = s
-        /\ th' = CallPc(t, P5("cs0", th[t].pc.v, 0, 0, 1), [th[t].pc EXCEPT !.k = "fm1"])
+        /\ th' = IF MUT = "fe_nosignal" /\ ob.fe[f] = s       \* calibration mutant: no signal when the status does not change
+                 THEN [th EXCEPT ![t].pc = P("mu0", th[t].pc.z, 0, 0), ![t].rs = <<[th[t].pc EXCEPT !.k = "fm9"]>> \o @]
+                 ELSE CallPc(t, P5("cs0", th[t].pc.v, 0, 0, 1), [th[t].pc EXCEPT !.k = "fm1"])
   /\ ob' = ObSet("fe", f, s)
   /\ UNCHANGED <<cur, got, cb, runq, ledger, tg, bad, mx, sq, gh>>
 UFeMarkRet(w, tag, f, s) ==
